@@ -197,6 +197,7 @@ class RustCheck:
         self.types = {i["name"]: i for i in self.items if i["kind"] == "type"}
         self.impls = [i for i in self.items if i["kind"] == "impl"]
         self.bad = []  # (key, witness)
+        self._lit_stack = []
         self.counts = {"fields": 0, "structs": 0, "enums": 0, "enum_values": 0, "aliases": 0, "methods": 0, "derived_ungated": []}
 
     def fail(self, key, wit):
@@ -230,7 +231,17 @@ class RustCheck:
             return "Option<%s>" % core if any(is_null(i) for i in t["items"]) else core
         if k == "literal":
             pr = t["value"]["properties"]
-            return "LIT{%s}" % "+".join(sorted(p["name"] for p in pr)) if pr else "LSPObject"
+            if not pr:
+                return "LSPObject"
+            # an anonymous literal is identified by its members AND their types (two literals with the
+            # same member names may not share one struct unless the member types agree too)
+            mem = []
+            for p in pr:
+                inner = self.rtype(p["type"])
+                if (p.get("optional") or null_admitting(p["type"])) and not inner.startswith("Option<"):
+                    inner = "Option<%s>" % inner
+                mem.append("%s:%s" % (p["name"], inner))
+            return "LIT{%s}" % "+".join(sorted(mem))
         if k == "and":
             return "AND{%s}" % "+".join(sorted(self.mm.and_props(t)))
         raise ValueError(k)
@@ -242,10 +253,15 @@ class RustCheck:
             n = m.group(0)
             if n in structs and n not in S and n not in self.mm.A and not n.endswith(("Request", "Response", "Notification")):
                 st = structs[n]
-                try:
-                    return "LIT{%s}" % "+".join(sorted(wire_name(f, serde_args(st["attrs"])) for f in st["fields"]))
-                except ValueError:
+                if n in self._lit_stack:
                     return n
+                self._lit_stack.append(n)
+                try:
+                    return "LIT{%s}" % "+".join(sorted("%s:%s" % (wire_name(f, serde_args(st["attrs"])), self.normalise_got(re.sub(r"\s+", "", f["type"]))) for f in st["fields"]))
+                except (ValueError, KeyError):
+                    return n
+                finally:
+                    self._lit_stack.pop()
             return n
 
         g = re.sub(r"[A-Za-z_][A-Za-z0-9_]*", sub, g)
